@@ -86,7 +86,8 @@ def make_driver():
         default_executable = "sh"
 
         # post-processor that needs the returned file
-        @Job(return_files=("result.txt",)).prep
+        # (the files asked back: the result, and two of the job's own input files - their ORDER is part of what the job declares)
+        @Job(return_files=("result.txt", "param.txt", "m.xyz")).prep
         def calc(self, M, planroot=None, arg=0, broken=(), farg=0, earg=0):
             # `arg` goes into the command line, `farg` only into the CONTENT of an input file, `earg` only into the VALUE of an environment variable
             return JobInput(M.name, commands=_cmds(self.executable, _key(M), planroot, arg, broken),
@@ -114,12 +115,12 @@ def make_driver():
             return new
 
         # the same job declared with job-level environment variables (the documented `envars=` parameter of Job)
-        calcenv = Job(return_files=("result.txt",), envars={"VF_JOB_LEVEL": "declared", "OMP_NUM_THREADS": "1"}).prep(calc._prep).post(calc._post)
+        calcenv = Job(return_files=("result.txt", "param.txt", "m.xyz"), envars={"VF_JOB_LEVEL": "declared", "OMP_NUM_THREADS": "1"}).prep(calc._prep).post(calc._post)
         calcenv_ens = Job.vectorize(calcenv).reduce(calc_ens._reduce)
 
         # post-processor that only reads stdout (never notices by itself that the run failed); the file it asks back is one of its
         # own input files, so "every requested file exists" holds as soon as the scratch directory is populated
-        @Job(return_files=("param.txt",)).prep
+        @Job(return_files=("param.txt", "m.xyz")).prep
         def lenient(self, M, planroot=None, arg=0, broken=(), farg=0, earg=0):
             # `arg` goes into the command line, `farg` only into the CONTENT of an input file, `earg` only into the VALUE of an environment variable
             return JobInput(M.name, commands=_cmds(self.executable, _key(M), planroot, arg, broken),
@@ -148,6 +149,66 @@ def make_driver():
     drv = CDriver(check_exe=True)
     drv.vf_opts = OPTS
     return drv
+
+
+_CHILD_SEED = []
+
+
+def child_hash_seed(k=0):
+    """PYTHONHASHSEED values under which a set of the job's file names iterates in ANOTHER order than in this process, and in another
+    order for odd and even k (so that anything that silently depends on set / dict-of-str iteration order differs between any two
+    consecutive interpreter sessions of a history)"""
+    if not _CHILD_SEED:
+        import subprocess
+        import sys
+
+        names = ("result.txt", "param.txt", "m.xyz")
+        seen = {repr(list(set(names)))}
+        picks = []
+        for cand in range(101, 160):
+            out = subprocess.run([sys.executable, "-c", f"print(list(set({names!r})))"], env=dict(os.environ, PYTHONHASHSEED=str(cand)), capture_output=True, text=True).stdout.strip()
+            if out and out not in seen:
+                seen.add(out)
+                picks.append(str(cand))
+                if len(picks) == 2:
+                    break
+        _CHILD_SEED.extend(picks or ["101", "102"])
+    return _CHILD_SEED[k % len(_CHILD_SEED)]
+
+
+def open_dest(plain, vec, path):
+    import atexit
+    import molli as ml
+
+    if plain:
+        from molli.storage import Collection, UkvCollectionBackend
+        lib = Collection(path, UkvCollectionBackend, value_encoder=lambda s_: s_.encode(), value_decoder=lambda b_: b_.decode(), readonly=False)
+    else:
+        lib = (ml.ConformerLibrary if vec else ml.MoleculeLibrary)(path, readonly=False)
+    atexit.unregister(lib._backend.flush)
+    return lib
+
+
+def run_jobmap(p):
+    """one jobmap run described by plain data (so that it can also happen in ANOTHER interpreter process: python -m vf.c18_child)"""
+    import atexit
+    import warnings
+    import molli as ml
+    from molli.pipeline.job import jobmap
+
+    if p.get("cwd"):
+        os.chdir(p["cwd"])
+    drv = make_driver()
+    drv.vf_opts.update(p["opts"])
+    src = (ml.ConformerLibrary if p["vec"] else ml.MoleculeLibrary)(p["src_path"], readonly=True)
+    atexit.unregister(src._backend.flush)
+    dst = open_dest(p["plain"], p["vec"], p["dst_path"])
+    kw = dict(p["kwargs"])
+    kw["broken"] = tuple(kw["broken"])
+    with warnings.catch_warnings():
+        warnings.simplefilter("ignore")
+        jobmap(getattr(drv, p["jobname"]), src, dst, cache_dir=p["cache_dir"], scratch_dir=p["scratch"], n_workers=p["n_workers"],
+               **({"args": tuple(p["args"]), "kwargs": kw} if p["args"] is not None else {"kwargs": kw}), progress=False, log_level=p["loglevel"], **({"strict_hash": False} if p["lax"] else {}))
 
 
 def plain_value(txt):
@@ -293,7 +354,26 @@ def check(r) -> list[Fail]:
             job = getattr(drv, jobname)
             before_counts = dict(count)
             try:
-                with warnings.catch_warnings():
+                if run.get("subproc"):
+                    # this run happens in a NEW interpreter session (a rerun on another day): other process, other string-hash seed
+                    import json
+                    import subprocess
+                    import sys
+                    brk_ = list(broken) + ["late:" + u for u in late]
+                    par = {"cwd": d if r.get("relcache") else None, "opts": dict(drv.vf_opts), "vec": vec, "plain": plain, "src_path": src_path, "dst_path": dst_path, "jobname": jobname,
+                           "cache_dir": cache_dir, "scratch": scratch, "n_workers": [4, 1, 2, 4][ri % 4 if r.get("posargs") else 0],
+                           "args": [planroot, arg] if r.get("posargs") else None,
+                           "kwargs": ({"broken": brk_, "farg": farg, "earg": earg} if r.get("posargs") else {"planroot": planroot, "arg": arg, "broken": brk_, "farg": farg, "earg": earg}),
+                           "loglevel": run.get("loglevel", "critical"), "lax": bool(run.get("lax"))}
+                    pf = os.path.join(d, f"run{ri}.json")
+                    with open(pf, "w") as fh_:
+                        json.dump(par, fh_)
+                    cp_ = subprocess.run([sys.executable, "-m", "vf.c18_child", pf], env=dict(os.environ, PYTHONHASHSEED=child_hash_seed(ri)), capture_output=True, text=True, timeout=600)
+                    if cp_.returncode != 0:
+                        fails.append(Fail("jobmap-raises:in-a-new-interpreter-session", f"run {ri} ({jobname}): exit {cp_.returncode}: {cp_.stderr[-300:]}"))
+                        return fails
+                else:
+                  with warnings.catch_warnings():
                     warnings.simplefilter("ignore")
                     jobmap(job, src, dst, cache_dir=cache_dir, scratch_dir=scratch, n_workers=[4, 1, 2, 4][ri % 4 if r.get("posargs") else 0],
                            # job arguments handed over positionally (args=) in some histories, by keyword in the others
@@ -402,6 +482,8 @@ def classify(r):
         lab.append("only_env_value_changes_somewhere")
     if any(run.get("lax") for run in r["runs"]):
         lab.append("strict_hash_off_somewhere")
+    if any(run.get("subproc") for run in r["runs"]):
+        lab.append("some_run_in_a_new_interpreter_session")
     if any(run.get("loglevel") == "debug" for run in r["runs"]):
         lab.append("debug_logging_somewhere")
     lab.append("job_args=positional" if r.get("posargs") else "job_args=keyword")
@@ -439,9 +521,11 @@ def strat(tier):
     planv = st.sampled_from(["ok", "ok", "fail", "okat2", "okat3", "nofile", "prepfail", "prepfail1", "okempty"])
     item = st.fixed_dictionaries({"nconf": st.integers(1, 3), "plans": st.lists(planv, min_size=1, max_size=3)})
     ev = st.one_of(st.tuples(st.just("delete"), st.integers(0, 20)).map(list), st.tuples(st.just("truncate"), st.integers(0, 20)).map(list), st.tuples(st.just("pollute"), st.integers(0, 20), st.integers(0, 20)).map(list))
-    run = st.fixed_dictionaries({"arg": st.sampled_from([0, 0, 0, 1, 2]), "farg": st.sampled_from([0, 0, 0, 1]), "earg": st.sampled_from([0, 0, 0, 1]), "cache_events": st.lists(ev, max_size=2), "new_dest": st.sampled_from([False, False, True]), "lax": st.sampled_from([False, False, False, True]), "loglevel": st.sampled_from(["critical", "critical", "debug", "info"]),
+    run = st.fixed_dictionaries({"arg": st.sampled_from([0, 0, 0, 1, 2]), "farg": st.sampled_from([0, 0, 0, 1]), "earg": st.sampled_from([0, 0, 0, 1]), "cache_events": st.lists(ev, max_size=2), "new_dest": st.sampled_from([False, False, True]), "lax": st.sampled_from([False, False, False, True]), "loglevel": st.sampled_from(["critical", "critical", "debug", "info"]), "subproc": st.sampled_from([False, True]),
                                  "broken": st.one_of(st.just([]), st.just([]), st.lists(st.integers(0, 20), min_size=1, max_size=2)),
-                                 "late": st.one_of(st.just([]), st.just([]), st.lists(st.integers(0, 20), min_size=1, max_size=2))})
+                                 "late": st.one_of(st.just([]), st.just([]), st.lists(st.integers(0, 20), min_size=1, max_size=2))}).map(
+        # a run in a new interpreter session that repeats the plain arguments usually also points at a fresh destination: everything it needs is in the cache
+        lambda x: dict(x, new_dest=True) if (x["subproc"] and x["arg"] == 0 and x["farg"] == 0) else x)
     return st.fixed_dictionaries({
         "vec": st.booleans(), "lenient": st.booleans(),
         "items": st.lists(item, min_size=2, max_size=4 if tier == "quick" else 5),
@@ -452,9 +536,26 @@ def strat(tier):
     })
 
 
+def enum_sessions(tier, shard, nshards):
+    """fixed histories whose second run happens in a NEW interpreter session with everything it needs already in the cache"""
+    run0 = {"arg": 0, "farg": 0, "earg": 0, "cache_events": [], "new_dest": False, "lax": False, "broken": [], "late": [], "loglevel": "critical", "subproc": False}
+    base = {"pre_source_keys": [], "n_foreign": 0, "posargs": False, "strfiles": False, "dotkeys": False, "relcache": False, "plain": False, "reduce_first": False, "jobenv": False}
+    cases = [
+        dict(base, vec=False, lenient=False, items=[{"nconf": 1, "plans": ["ok"]}, {"nconf": 1, "plans": ["ok"]}], runs=[run0, dict(run0, new_dest=True, subproc=True)]),
+        dict(base, vec=True, lenient=False, items=[{"nconf": 2, "plans": ["ok", "okat2"]}, {"nconf": 1, "plans": ["ok"]}], runs=[run0, dict(run0, subproc=True)]),
+        dict(base, vec=False, lenient=True, items=[{"nconf": 1, "plans": ["ok"]}, {"nconf": 1, "plans": ["fail"]}], runs=[dict(run0, subproc=True), dict(run0, new_dest=True), dict(run0, new_dest=True, subproc=True)]),
+        dict(base, vec=True, lenient=False, jobenv=True, items=[{"nconf": 3, "plans": ["ok", "fail", "ok"]}], runs=[dict(run0, subproc=True), dict(run0, subproc=True)]),
+    ]
+    for i, c in enumerate(cases):
+        if i % nshards == shard:
+            yield c
+
+
 LEGS = [
+    Leg("sessions", check, classify, enumerate=enum_sessions, exhaustive=True, shards={"quick": 4, "thorough": 4}, timeout={"quick": 900, "thorough": 900},
+        rule="4 fixed histories in which a rerun happens in a new interpreter process (string-hash seed chosen so that set iteration order differs) with every needed output already cached: nothing may be executed again"),
     Leg("hist", check, classify, strategy=strat, n={"quick": 48, "thorough": 600}, shards={"quick": 16, "thorough": 16}, timeout={"quick": 900, "thorough": 14000},
         rule="generated histories: 2-4/5 items (single molecules or ensembles of 1-3 conformers) with per-unit plans {ok, ok with an EMPTY return file, fail, ok at 2nd/3rd attempt, omit return file, first (unnamed) command fails always / once}, 2-3/4 jobmap runs whose arguments change the command line, only the content of an input file, or only the value of an environment variable (all must change the hash), "
-             "0-2 pre-populated source keys, 0-2 foreign destination keys, cache events (delete one output, copy another input's output into a slot) between runs, optionally a fresh empty destination with the old cache directory, runs in which the program of some unit cannot be started (the runner dies before writing an output), strict (needs return file) and lenient (stdout only) post-processors, strict_hash on (default) / off per run, log level critical / info / debug per run, "
+             "0-2 pre-populated source keys, 0-2 foreign destination keys, cache events (delete one output, copy another input's output into a slot) between runs, optionally a fresh empty destination with the old cache directory, runs in which the program of some unit cannot be started (the runner dies before writing an output), strict (needs return file) and lenient (stdout only) post-processors, strict_hash on (default) / off per run, log level critical / info / debug per run, a run may happen in a new interpreter process (other string-hash seed), "
              "single and vectorised jobs (reduce step consuming all per-conformer results or only the first); every job is a real _molli_run launch; evaluations = jobmap runs; non-trivial = a rerun after a failure, or an argument change with a populated cache"),
 ]
